@@ -8,15 +8,35 @@
 package zzverif
 
 import (
+	crand "crypto/rand"
 	"encoding/hex"
 	"encoding/json"
 	"fmt"
+	"io"
 	"os"
 	"reflect"
 	"strconv"
 	"sync"
+	"sync/atomic"
 	"time"
 )
+
+// countingReader wraps the process's crypto random source so that SecretDraws can tell natively whether a
+// value was drawn from it.
+type countingReader struct{ r io.Reader }
+
+var secretReads int64
+
+func (c countingReader) Read(b []byte) (int, error) {
+	atomic.AddInt64(&secretReads, 1)
+	return c.r.Read(b)
+}
+
+func init() { crand.Reader = countingReader{crand.Reader} }
+
+// SecretDraws: how many times the crypto random source has been read so far (symbolically: calls of
+// crypto/rand.Read on this path; natively: reads of crypto/rand.Reader).
+func SecretDraws() int { return int(atomic.LoadInt64(&secretReads)) }
 
 type script struct {
 	Values map[string]json.RawMessage `json:"values"`
